@@ -2190,7 +2190,7 @@ func toFloat(x any) (float64, bool) {
 		return bigToFloat(x), true
 	case json.Number:
 		v, err := x.Float64()
-		return v, err == nil
+		return v, err == nil || math.IsInf(v, 0) // out of range numbers saturate
 	default:
 		return 0.0, false
 	}
